@@ -43,6 +43,8 @@ pub struct RTree {
     pub lib_chance_probs: Vec<Vec<f64>>,
     pub names: [Vec<String>; 2],
     pub actions: [Vec<Vec<String>>; 2],
+    /// single-action infosets of the model (they carry no state; listed at probability one)
+    pub singles: [Vec<(String, String)>; 2],
 }
 
 pub fn compile(model: &MNode, dump: &Dump, infosets: &[Vec<(&String, &[String])>; 2]) -> Result<RTree, String> {
@@ -110,7 +112,15 @@ pub fn compile(model: &MNode, dump: &Dump, infosets: &[Vec<(&String, &[String])>
     }
     let root = walk(model, &dump.root, &names, &actions, &mut chance_probs)?;
     let chance_probs: Vec<Vec<f64>> = chance_probs.into_iter().map(|p| p.unwrap_or_default()).collect();
-    Ok(RTree { root, chance_probs, lib_chance_probs: dump.chance_probs.clone(), names, actions })
+    let mut singles: [Vec<(String, String)>; 2] = Default::default();
+    for (p, infos) in model.infosets().iter().enumerate() {
+        for (i, acts) in infos {
+            if acts.len() == 1 {
+                singles[p].push((i.clone(), acts[0].clone()));
+            }
+        }
+    }
+    Ok(RTree { root, chance_probs, lib_chance_probs: dump.chance_probs.clone(), names, actions, singles })
 }
 
 struct Info {
@@ -195,17 +205,55 @@ impl Ref<'_> {
         let info = &mut self.infos[p][i];
         let n = info.n;
         let mut why = None;
+        // ---- conditioning guard (DESIGN 5.3) --------------------------------------------
+        // eta_a bounds (very generously) the rounding noise R_a can carry under any legal
+        // summation order. A regret is FRAGILE if it is within eta of zero although things
+        // were added to it (S_a > 0): this includes regrets that are exactly zero only
+        // because "x - x" cancelled in this particular order of operations. Exact zeros of
+        // untouched / zero-reach actions (S_a = 0) stay exactly zero in every order.
         if info.visited {
             let eta: Vec<f64> = info.mag.iter().map(|s| REL_ETA * s).collect();
             let max_eta = eta.iter().cloned().fold(0.0, f64::max);
-            if (0..n).any(|a| info.reg[a] != 0.0 && info.reg[a].abs() < eta[a]) {
-                why = Some("regret-near-zero");
-            }
-            let pos: f64 = info.reg.iter().filter(|v| **v > 0.0).sum();
-            if pos > 0.0 && pos < 1e3 * max_eta {
-                why = Some("positive-mass-near-zero");
+            let fragile: Vec<usize> = (0..n).filter(|a| info.mag[*a] > 0.0 && info.reg[*a].abs() < eta[*a]).collect();
+            let robust_pos: f64 = (0..n).filter(|a| !fragile.contains(a) && info.reg[*a] > 0.0).map(|a| info.reg[a]).sum();
+            if robust_pos > 0.0 {
+                // noise that can reach the normalisation: that of the positive and the fragile regrets
+                let rel_eta = (0..n).filter(|a| info.reg[*a] > 0.0 || fragile.contains(a)).map(|a| eta[a]).fold(0.0, f64::max);
+                // estimated relative error of the normalisation <= 1e-14*S/P; 1e2*eta = 1e-6*S keeps the
+                // strategy error below 1e-8, a tenth of the comparison tolerance
+                if robust_pos < 1e2 * rel_eta {
+                    why = Some("positive-mass-near-zero");
+                    if std::env::var("VERIF_DEBUG_ILL").is_ok() {
+                        eprintln!("PMNZ params={:?} reg={:?} mag={:?} fragile={:?}", self.cfg.params, info.reg, info.mag, fragile);
+                    }
+                }
+                // otherwise fragile regrets contribute at most a 1e-11 share: harmless
+            } else if !fragile.is_empty() {
+                // no robust positive regret: the sign of the fragile ones picks the branch.
+                // Only one situation is order-independent: the arg-max fallback with a single
+                // fragile action and every other action clearly negative (that action is
+                // played purely whichever way its sign falls).
+                let others_clearly_negative = (0..n).filter(|a| !fragile.contains(a)).all(|a| info.reg[a] < -eta[a] && info.reg[a] < -max_eta);
+                if !(w == f64::INFINITY && fragile.len() == 1 && others_clearly_negative) {
+                    why = Some("fragile-zero-regret-decides-branch");
+                }
+            } else if w == f64::INFINITY || w == f64::NEG_INFINITY {
+                // fallback on exact values: near ties, and exact ties between touched values
+                let ext = if w == f64::INFINITY {
+                    info.reg.iter().cloned().fold(f64::NEG_INFINITY, f64::max)
+                } else {
+                    info.reg.iter().cloned().fold(f64::INFINITY, f64::min)
+                };
+                let tied: Vec<usize> = (0..n).filter(|a| info.reg[*a] == ext).collect();
+                if (0..n).any(|a| info.reg[a] != ext && (info.reg[a] - ext).abs() < max_eta.max(eta[a])) {
+                    why = Some("near-tie-in-fallback");
+                }
+                if tied.len() > 1 && tied.iter().any(|a| info.mag[*a] > 0.0) {
+                    why = Some("exact-tie-between-touched-regrets");
+                }
             }
         }
+        // ---- the documented rule ----------------------------------------------------------
         let pos: f64 = info.reg.iter().filter(|v| **v > 0.0).sum();
         if pos > 0.0 {
             for a in 0..n {
@@ -219,11 +267,6 @@ impl Ref<'_> {
                 info.reg.iter().cloned().fold(f64::INFINITY, f64::min)
             };
             let tied: Vec<usize> = (0..n).filter(|a| info.reg[*a] == ext).collect();
-            // near ties (not exact) are ill-conditioned
-            let max_eta = info.mag.iter().map(|s| REL_ETA * s).fold(0.0, f64::max);
-            if (0..n).any(|a| info.reg[a] != ext && (info.reg[a] - ext).abs() < max_eta) {
-                why = Some("near-tie-in-fallback");
-            }
             let pol = if want_max { tie.max } else { tie.min };
             info.strat.iter_mut().for_each(|v| *v = 0.0);
             match pol {
@@ -501,6 +544,9 @@ pub fn reference(tree: &RTree, cfg: &RefCfg) -> RefOut {
                 .map(|(a, q)| (a.clone(), q))
                 .collect();
             profile[p].insert(tree.names[p][i].clone(), m);
+        }
+        for (i, a) in &tree.singles[p] {
+            profile[p].insert(i.clone(), [(a.clone(), 1.0)].into_iter().collect());
         }
     }
     RefOut { profile, bounds: b, iterations, ill: r.ill, draws: r.draws, history, min_thresh_gap: min_gap }
